@@ -57,7 +57,8 @@ _p('C20', 'command equals the library pipeline',
 def _attach():
     from vlib.pyvc import units
     for pid, u in units.UNITS.items():
-        PROPS[pid]['obligations'] = (list(u.get('functions', [])) + ['lemma:' + x for x in u.get('lemmas', [])]
+        PROPS[pid]['obligations'] = (list(u.get('functions', [])) + list(u.get('thorough_functions', []))
+                                     + ['lemma:' + x for x in u.get('lemmas', [])]
                                      + ['regex:' + x for x in u.get('regex', [])])
         PROPS[pid]['level'] = u.get('level', 'other')
         PROPS[pid]['explanation'] = u.get('explanation', '')
